@@ -13,7 +13,10 @@ use dicom_ul::{
 use snafu::{OptionExt, Report, ResultExt, Whatever};
 use tracing::{debug, info, warn};
 
-use crate::{App, create_cecho_response, create_cstore_response, transfer::ABSTRACT_SYNTAXES};
+use crate::{
+    App, create_cecho_response, create_cstore_response, instance_file_path,
+    transfer::ABSTRACT_SYNTAXES,
+};
 pub async fn run_store_async(
     scu_stream: tokio::net::TcpStream,
     args: &App,
@@ -262,10 +265,7 @@ where
                                 let file_obj = obj.with_exact_meta(file_meta);
 
                                 // write the files to the current directory with their SOPInstanceUID as filenames
-                                let mut file_path = out_dir.to_path_buf();
-                                file_path.push(
-                                    sop_instance_uid.trim_end_matches('\0').to_string() + ".dcm",
-                                );
+                                let file_path = instance_file_path(out_dir, &sop_instance_uid);
                                 file_obj
                                     .write_to_file(&file_path)
                                     .whatever_context("could not save DICOM object to file")?;
